@@ -17,7 +17,7 @@ RULE = ("scenario = 1-2 random upstream repositories (1-2 codenames, 1-3 compone
         "with a non-empty fault plan or switch or local fault, distinct by (class, fault kinds, target kind)")
 
 CLASSES = ["none", "transient", "transient", "persistent-required", "persistent-optional", "switch", "local-dir",
-           "transient"]
+           "transient", "persistent-ignored"]
 
 
 def run_one(chk, sseed, cls):
@@ -32,7 +32,7 @@ def run_one(chk, sseed, cls):
         stores = w.stores()
         for repo in w.repos:
             url = repo["url"]
-            pcls = cls if cls in ("none", "transient", "persistent-required", "persistent-optional") else "none"
+            pcls = cls if cls in ("none", "transient", "persistent-required", "persistent-optional", "persistent-ignored") else "none"
             plan, info = scenario.gen_plan(rng, pcls, repo, w.cfgs[url], stores[url])
             plans[url], infos[url] = plan, info
         if cls == "switch":
